@@ -67,17 +67,42 @@ theorem setFile_same (p b : Bytes) (t : Tree) (h : lookup p t = some b) : setFil
 theorem formatCmd_check_tree (github : Bool) (lint : Bytes → Bool) (t : Tree) (arg : Bytes) (r : RunResult)
     (h : formatCmd true github lint t arg = some r) : r.tree = t := by
   unfold formatCmd at h
+  simp only [] at h
   split at h
   · simp at h
-  · simp only [Option.some.injEq] at h; subst h
-    unfold formatAt
-    split
-    · rfl
-    · rename_i b hb
+  · split at h
+    · simp only [Option.some.injEq] at h; subst h
+      unfold formatAt
       split
       · rfl
-      · simp only [formatOne]
-        split <;> exact setFile_same _ b t hb
+      · rename_i b hb
+        split
+        · rfl
+        · simp only [formatOne]
+          split <;> exact setFile_same _ b t hb
+    · simp only [Option.some.injEq] at h; subst h; rfl
+
+/-- **C15 (format, single target).** Whatever the argument looks like — path separators, `..`, other extensions —
+    `regex format ARG` either leaves the tree as it is or rewrites exactly one file, and that file is a `.ra` file below
+    regex-assembly (`isFormatTarget`), replaced by its formatted text. -/
+theorem C15_format_single_target (check github : Bool) (lint : Bytes → Bool) (t : Tree) (arg : Bytes) (r : RunResult)
+    (h : formatCmd check github lint t arg = some r) :
+    r.tree = t ∨ ∃ p b, isFormatTarget p = true ∧ lookup p t = some b ∧ r.tree = setFile p (formatOne check (lint p) b).1 t := by
+  unfold formatCmd at h
+  simp only [] at h
+  split at h
+  · simp at h
+  · split at h
+    · rename_i hp
+      simp only [Option.some.injEq] at h; subst h
+      unfold formatAt
+      split
+      · exact .inl rfl
+      · rename_i b hb
+        split
+        · exact .inl rfl
+        · exact .inr ⟨_, b, hp, hb, rfl⟩
+    · simp only [Option.some.injEq] at h; subst h; exact .inl rfl
 
 /-- a single-file `renumber-tests --check` leaves the tree as it is -/
 theorem renumberCmd_check_tree (t : Tree) (arg : Bytes) (r : RunResult)
@@ -167,12 +192,15 @@ def core (r : RunResult) : Bool × Tree := (r.ok, r.tree)
 theorem formatCmd_core (check g g' : Bool) (lint : Bytes → Bool) (t : Tree) (arg : Bytes) :
     (formatCmd check g lint t arg).map core = (formatCmd check g' lint t arg).map core := by
   unfold formatCmd
+  simp only []
   split
   · rfl
-  · simp only [Option.map_some, formatAt]
-    split
+  · split
+    · simp only [Option.map_some, formatAt]
+      split
+      · rfl
+      · split <;> rfl
     · rfl
-    · split <;> rfl
 
 /-- the body of a command decides status and tree without looking at the output format, unless the command is compare
     (format and renumber-tests *print* differently in GitHub mode) -/
